@@ -63,6 +63,28 @@ macro_rules! write_flags {
     };
 }
 
+/// Writes `#[variance(..)]` for an item whose declared variances are not all
+/// invariant (the default when the attribute is absent).
+fn write_variances<I: Interner>(
+    f: &mut Formatter<'_>,
+    interner: I,
+    variances: &chalk_ir::Variances<I>,
+) -> Result {
+    let variances = variances.as_slice(interner);
+    if variances
+        .iter()
+        .any(|v| !matches!(v, chalk_ir::Variance::Invariant))
+    {
+        let names = variances.iter().map(|v| match v {
+            chalk_ir::Variance::Covariant => "Covariant",
+            chalk_ir::Variance::Invariant => "Invariant",
+            chalk_ir::Variance::Contravariant => "Contravariant",
+        });
+        writeln!(f, "#[variance({})]", names.format(", "))?;
+    }
+    Ok(())
+}
+
 impl<'a, I: Interner> RenderAsRust<I> for (&'a CoroutineDatum<I>, &'a CoroutineWitnessDatum<I>) {
     fn fmt(&self, _s: &InternalWriterState<'_, I>, _f: &'_ mut Formatter<'_>) -> Result {
         unimplemented!()
@@ -76,6 +98,11 @@ impl<I: Interner> RenderAsRust<I> for AdtDatum<I> {
         let s = &s.add_debrujin_index(None);
         let value = self.binders.skip_binders();
 
+        // variances
+        let interner = s.db().interner();
+        let variances = s.db().unification_database().adt_variance(self.id);
+        write_variances(f, interner, &variances)?;
+
         // flags
         write_flags!(
             f,
@@ -87,6 +114,10 @@ impl<I: Interner> RenderAsRust<I> for AdtDatum<I> {
                 phantom_data
             }
         );
+
+        if s.db().adt_size_align(self.id).one_zst() {
+            writeln!(f, "#[one_zst]")?;
+        }
 
         // repr
         let repr = s.db().adt_repr(self.id);
